@@ -22,12 +22,20 @@ func c02(r *core.Run) {
 	r.Explanation = "Static rules: (R1) expression-DAG equivalence of the two leaf encoders — the leaf the tree builder feeds the Merkle library and the leaf the on-chain verifier feeds it are the same term SHA256(dec(index) ‖ hex(chunk)) up to leaf naming, with the same tree hash constructor and salting flag; (R2) every random challenge draw is reached only behind pieces > 0, the bound derives from FileSize / chunk size with the chunk size coming from a parameter whose validator rejects values below 1, and the challenge is the constant 0 otherwise; (R3) removal and burning in the per-proof routine happen only on the miss branch. The window clause (one proof per window at any phase is always enough) is pure schedule arithmetic and is not decided."
 	r.Assumptions = []string{T4, T6, "soundness of go-merkletree"}
 	r.NotDecided = []string{"the proof-window clause: for every placement of one proof per window relative to reward blocks the prover is never dropped (schedule arithmetic; the code is the definition)"}
+	r.Rule("C02/R6", "an honest proof is never refused for a reason outside the prover's control: every branch of the proof handler that leads only to Success=false answers is decided by the message, the file's slot list, the challenged chunk or a lookup / verification verdict — never by another stored field or the block height")
 	r.Rule("C02/R5", "block-height arithmetic is dimensionally consistent: absolute heights (Ctx.BlockHeight and fields assigned from it) are compared only with absolute heights, intervals/offsets/parameters only with each other (point - point = span, point ± span = point), followed through helper calls with the dimensions of the actual arguments")
 	r.Rule("C02/R1", "writer/reader leaf encodings agree: term(builder leaf) ≡ term(verifier leaf) up to leaf naming; same tree hash constructor; same salted flag")
 	r.Rule("C02/R2", "challenge bounded: each Int63n(n) on transaction paths is behind Cmp(n > 0); n ⊵ FileSize and the chunk size; the chunk size at every caller ⊵ Param(storage.ChunkSize) whose validator enforces >= 1")
 	r.Rule("C02/R4", "the file judged in the reward loop is decoded into a fresh variable per file (no captured decode target with repeated fields): otherwise an honest prover of an earlier file is judged against a later file's window and removed/burned")
 	r.Rule("C02/R3", "remove/burn only on the miss branch: in the per-proof routine removal is behind young=false and (proof not found or proven=false); burn behind proven=false and young=false")
 	heightDimensions(r, "C02/R5", moduleFuncs(p, "storage"), 8)
+	if hs, err := p.Handlers(); err == nil {
+		if h := core.HandlerByKey(hs, "storage.MsgPostProof"); h != nil {
+			refusalReasons(r, "C02/R6", h)
+		} else {
+			r.Undecided("C02/R6", "storage.MsgPostProof:anchor-missing", "", "handler missing")
+		}
+	}
 	// ---- R1
 	var bLeaf, vLeaf ssa.Value
 	var bHash, vHash, bSalt, vSalt string
@@ -213,4 +221,98 @@ func c02(r *core.Run) {
 		r.Floor("C02/R3", n, 3, "remove/burn sites of the per-proof routine")
 		staleDecodeTargets(r, "C02/R4", p.Summary(e).Funcs)
 	}
+}
+
+// refusalReasons: the proof handler answers Success=false only for reasons an honest holder of the file controls or the
+// reward sweep honours too: the file or the prover's slot does not exist, the wrong chunk was answered, the proof
+// does not verify. A refusal decided by any other stored field or by the block height (e.g. "the file's paid term is
+// over") locks an honest prover out while the reward sweep keeps demanding proofs from it.
+func refusalReasons(r *core.Run, rule string, h *core.Handler) {
+	p := r.Prog
+	fn := h.Fn
+	rejecting := map[*ssa.Return]bool{}
+	nRet := 0
+	for _, b := range fn.Blocks {
+		ret, ok := b.Instrs[len(b.Instrs)-1].(*ssa.Return)
+		if !ok {
+			continue
+		}
+		nRet++
+		if al, ok := ret.Results[0].(*ssa.Alloc); ok {
+			for _, st := range fieldStores(al, "Success") {
+				if c, isC := st.Val.(*ssa.Const); isC && c.Value != nil && c.Value.ExactString() == "false" {
+					rejecting[ret] = true
+				}
+			}
+		}
+	}
+	onlyRejects := func(from *ssa.BasicBlock) bool {
+		any := false
+		for _, b := range fn.Blocks {
+			ret, ok := b.Instrs[len(b.Instrs)-1].(*ssa.Return)
+			if !ok {
+				continue
+			}
+			if b == from || blockReaches(from, b) {
+				any = true
+				if !rejecting[ret] {
+					return false
+				}
+			}
+		}
+		return any
+	}
+	n := 0
+	for _, b := range fn.Blocks {
+		ifi, ok := b.Instrs[len(b.Instrs)-1].(*ssa.If)
+		if !ok {
+			continue
+		}
+		refuses := false
+		for _, sc := range b.Succs {
+			if onlyRejects(sc) {
+				refuses = true
+			}
+		}
+		if !refuses || onlyRejects(b) {
+			continue // not a decision between refusing and going on
+		}
+		n++
+		ca := p.NormCond(ifi)
+		bad := ""
+		check := func(v ssa.Value) {
+			for _, a := range p.ResolveToEntry(p.ProvAt(v, "", ifi), fn).DataAtoms() {
+				ok := false
+				switch a.Kind {
+				case "param":
+					ok = a.Fn == fn && a.Idx == h.MsgIdx
+				case "store":
+					ok = (a.Name == stFiles && (a.Path == ".Proofs" || a.Path == ".MaxProofs" || strings.HasPrefix(a.Path, ".Proofs") || a.Path == "#found" || a.Path == ".Merkle")) ||
+						(a.Name == stProof && (a.Path == ".ChunkToProve" || a.Path == "#found"))
+				case "const", "zero":
+					ok = true
+				}
+				if !ok {
+					bad = a.String()
+				}
+			}
+		}
+		switch ca.Kind {
+		case "eq", "cmp":
+			check(ca.X)
+			check(ca.Y)
+		case "errnil", "isnil", "found":
+			// verdict of a lookup / the verifier / the slot allocator: judged by C01/R2, C17/R3
+		case "callbool":
+			if ca.Call != nil {
+				for _, a := range dataArgs(ca.Call) {
+					check(a)
+				}
+			}
+		default:
+			check(ifi.Cond)
+		}
+		r.Check(bad == "", rule, h.Key()+":refusal-reason:"+p.Describe(ca, true), p.InstrPos(ifi), "the refusal depends only on the message, the slot list and the challenged chunk (or on a lookup / verification verdict)", "a proof is refused on a condition that depends on "+bad+": an honest holder of the file cannot influence it, and the reward sweep, which does not look at it, keeps demanding proofs — the prover is dropped and burned although it holds the data")
+	}
+	r.Floor(rule, n, 3, "refusal decisions in the proof handler")
 }
